@@ -34,8 +34,8 @@ pub fn run(check: &str, ctx: &mut Ctx, args: &[String]) -> bool {
         "c08" => c08::run(ctx),
         "c09" => c09::run(ctx),
         "c10" => c10::run(ctx),
-        "c11" => c11::run(ctx),
-        "c12" => c12::run(ctx),
+        "c11" => c11::run(ctx, args),
+        "c12" => c12::run(ctx, args),
         "c13" => c13::run(ctx),
         "c14" => c14::run(ctx),
         "c15" => c15::run(ctx),
